@@ -31,6 +31,31 @@ def all_args_joined(f, rule_ctx, ctx: Ctx, rule: str, head: str):
     from . import util
 
     v = util.value_of(ctx, f)
+    if not av.has_unk(v) and v[0] == "fold":
+        # nested binary calls: Head(...Head(Head(a0, a1), a2)..., an) - every layer must carry the connective's own head
+        import re as _re
+
+        def text(t):
+            return av.flatten(t).replace(av.HO, "{").replace(av.HC, "}") if av._is_str(t) else None
+
+        init_t, body_t = text(v[3]), text(v[4])
+        heads = set(_re.findall(r"([A-Za-z_]\w*)\(", (init_t or "") + (body_t or "")))
+        if init_t is None or body_t is None or not heads:
+            ctx.undecided(rule, f.key("all-arguments"), f"what {f.qualname} returns is not understood", f.where())
+            return
+        wrong = sorted(h for h in heads - {"self._print", "_print"} if h != head and not h.endswith("_print"))
+        if wrong:
+            ctx.fail(rule, f.key("all-arguments"), f"{f.qualname} nests binary calls, but a layer is written as `{wrong[0]}(...)` instead of `{head}(...)` (`{body_t[:60]}` after `{init_t[:60]}`): with three or more operands the saved condition is another connective than the model's", f.where())
+            return
+        ep_ = f.params[-1]
+        k0 = len(_re.findall(r"\{self\._print\(" + _re.escape(ep_) + r"\.args\[\d+\]\)\}", init_t))
+        seq_ok = v[2][0] == "slice" and v[2][2] == av.C(k0) and v[2][3] in (av.NONE, av.C(None)) and av._unwrap_seq(v[2][1])[0] == "comp" and av._unwrap_seq(v[2][1])[2] == ("sym", f"{ep_}.args")
+        acc_first = _re.fullmatch(_re.escape(head) + r"\(\{acc\$?\d*\}, \{\$\d+\}\)", body_t) is not None
+        if seq_ok and acc_first and k0 >= 1:
+            ctx.ok(rule, f.key("all-arguments"), f"{head}(...{head}(a0, a1)..., an): nested binary calls over every argument", f.where())
+        else:
+            ctx.undecided(rule, f.key("all-arguments"), f"{f.qualname} nests binary `{head}` calls in a way that is not recognised ({av.show(v)[:100]})", f.where())
+        return
     if av.has_unk(v) or not av._is_str(v):
         ctx.undecided(rule, f.key("all-arguments"), f"what {f.qualname} returns is not understood", f.where())
         return
